@@ -316,6 +316,7 @@ pub fn gen_plan(seed: u64, run: u64, cfg: Config, sys: &SysZones) -> Generated {
     let w_file = if r.chance(1, 2) { r.below(8) as u32 } else { 0 };
     let w_sys = if r.chance(1, 4) { 2 } else { 0 };
     let w_jump = if cfg == Config::F2 { 6 + r.below(10) as u32 } else { 0 };
+    let w_respawn = if r.chance(1, 3) { 1 + r.below(4) as u32 } else { 0 };
     let nworkers = 1 + r.usize(4);
     let nsteps = 5 + r.usize(36);
     let p_inject = *r.pick(&[0u64, 1, 3, 6]); // out of 10
@@ -349,7 +350,7 @@ pub fn gen_plan(seed: u64, run: u64, cfg: Config, sys: &SysZones) -> Generated {
     let tz0 = r.pick(&menu).clone();
     let mut steps = Vec::new();
     for _ in 0..nsteps {
-        match r.weighted(&[w_set, w_wait, w_conv, w_file, w_sys, w_jump]) {
+        match r.weighted(&[w_set, w_wait, w_conv, w_file, w_sys, w_jump, w_respawn]) {
             0 => steps.push(Step::Admin(gen_set(r, &menu))),
             1 => steps.push(Step::Admin(Admin::Wait(gen_wait(r)))),
             2 => {
@@ -442,7 +443,8 @@ pub fn gen_plan(seed: u64, run: u64, cfg: Config, sys: &SysZones) -> Generated {
                 1 => Some("Sim/System".into()),
                 _ => Some("Sim/NoSuchSystemZone".into()),
             }))),
-            _ => steps.push(Step::Admin(Admin::JumpBack(gen_wait(r)))),
+            5 => steps.push(Step::Admin(Admin::JumpBack(gen_wait(r)))),
+            _ => steps.push(Step::Respawn(r.usize(nworkers))),
         }
     }
     let clock0_ns = 1_600_000_000_000_000_000 + r.below(200_000_000) * 1_000_000_000 + r.below(1_000_000_000);
